@@ -82,7 +82,7 @@ M("c04-silent-break", "C04", C, '                if nr_iterations == max_iterati
 M("c04-vector-after-pe", "C04", C, "                nr_iterations = nr_iterations + 1\n                if nr_iterations == max_iterations:\n                    warnings.warn(\n                        \"Could not achieve the required precision. Stopping \"\n                        \"because the maximum number of iterations is reached.\",\n                        UserWarning,\n                    )\n                    break\n            if (current",
   "                nr_iterations = nr_iterations + 1\n                current_vector = unity_vector * rel_dist * max_distance\n                if nr_iterations == max_iterations:\n                    warnings.warn(\n                        \"Could not achieve the required precision. Stopping \"\n                        \"because the maximum number of iterations is reached.\",\n                        UserWarning,\n                    )\n                    break\n            if (current", rules=["C04.sync"])
 M("c04-closure", "C04", C, "        coords_x.append(0)\n        coords_y.append(coords_y[-1])\n        coords_x.append(0)\n        coords_y.append(0)", "        coords_x.append(0)\n        coords_y.append(0)\n        coords_x.append(0)\n        coords_y.append(coords_y[-1])", rules=["C04.close"])
-M("c04-filter-alter", "C04", C, "                coords_x.append(current_vector[0])\n                coords_y.append(current_vector[1])\n        coords_x.append(0)", "                coords_x.append(min(current_vector[0], x_max_consider))\n                coords_y.append(current_vector[1])\n        coords_x.append(0)", rules=["C04.filter"])
+M("c04-filter-alter", "C04", C, "                coords_x.append(current_vector[0, 0])\n                coords_y.append(current_vector[1, 0])\n        coords_x.append(0)", "                coords_x.append(min(current_vector[0, 0], x_max_consider))\n                coords_y.append(current_vector[1, 0])\n        coords_x.append(0)", rules=["C04.filter"])
 M("c04-tolerance", "C04", C, "            while np.abs((current_pe - alpha)) / alpha > allowed_error:\n                abs_dist = rel_dist * max_distance\n                current_vector = unity_vector * abs_dist\n                both_greater", "            while np.abs((current_pe - alpha)) > allowed_error:\n                abs_dist = rel_dist * max_distance\n                current_vector = unity_vector * abs_dist\n                both_greater", rules=["C04.exit"])
 M("c04-and-last", "C04", C, "        coords_x[-1] = 0\n        coords_y[-1] = 0", "        coords_x[-1] = 0\n        coords_y[-1] = coords_y[-2]", rules=["C04.close"])
 
@@ -111,7 +111,7 @@ M("c06-prod", "C06", J, "return np.prod(fs, axis=-1)", "return np.prod(fs[:, 1:]
 M("c06-perm", "C06", J, "                x = np.array(args)[np.argsort(arg_order)].reshape((1, n_dim))\n                return self.pdf(x)\n\n            return integral_func\n\n        # TODO make limits (or lower limit)", "                x = np.array(args)[arg_order].reshape((1, n_dim))\n                return self.pdf(x)\n\n            return integral_func\n\n        # TODO make limits (or lower limit)", rules=["C06.argorder"])
 M("c06-delegate", "C06", J, "            return self.distributions[dim].cdf(x)", "            return self.distributions[dim].pdf(x)", rules=["C06.delegate"])
 M("c06-quantile-col", "C06", J, "        x = np.quantile(sample[:, dim], p)", "        x = np.quantile(sample[:, 0], p)", rules=["C06.mc"])
-M("c06-chkfinite", "C06", J, "        x = np.asarray_chkfinite(x)\n        fs = np.empty_like(x, dtype=float)", "        x = np.asarray(x)\n        fs = np.empty_like(x, dtype=float)", rules=["C06.finite"])
+M("c06-chkfinite", "C06", J, "        x = np.asarray_chkfinite(x)\n        if x.shape[-1] != self.n_dim:", "        x = np.asarray(x)\n        if x.shape[-1] != self.n_dim:", rules=["C06.finite"])
 M("c06-cdf-limits", "C06", J, "            integration_limits = [\n                (lower_integration_limits[j], x[i, j]) for j in range(n_dim)\n            ]\n\n            p[i], error = integrate.nquad(integral_func, integration_limits)\n\n        return p\n\n    @abstractmethod", "            integration_limits = [\n                (lower_integration_limits[j], x[i, 0]) for j in range(n_dim)\n            ]\n\n            p[i], error = integrate.nquad(integral_func, integration_limits)\n\n        return p\n\n    @abstractmethod", rules=["C06.argorder"])
 M("c07-cond-col", "C07", J, "                conditioning_values = samples[:, cond_idx]\n                samples[:, i]", "                conditioning_values = samples[:, i - 1]\n                samples[:, i]", rules=["C07.chain"])
 M("c07-drop-rs", "C07", J, "                samples[:, i] = dist.draw_sample(n, random_state=random_state)", "                samples[:, i] = dist.draw_sample(n)", rules=["C07.rng"])
@@ -215,11 +215,11 @@ M("c18-data-dim", "C18", J, "        if data.ndim != 2 or data.shape[-1] != self
 M("c18-data-ndim", "C18", J, "        if data.ndim != 2 or data.shape[-1] != self.n_dim:", "        if data.shape[-1] != self.n_dim:", rules=["C18.guard"], what="original defect D27")
 M("c19-ew-pdf-inplace", "C19", D, "        x_greater_zero = np.where(x > 0, x, np.nan)", "        x = np.asarray(x, dtype=float)\n        x[x <= 0] = np.nan\n        x_greater_zero = x", rules=["C19.noargmut"])
 M("c19-sample-inplace", "C19", C, "        x, y = sample.T\n\n        # Calculate non-exceedance probability.", "        x, y = sample.T\n        x -= 0\n\n        # Calculate non-exceedance probability.", rules=["C19.nomodelwrite"])
-M("c19-model-cache", "C19", J, "        x = np.asarray_chkfinite(x)\n        fs = np.empty_like(x, dtype=float)", "        x = np.asarray_chkfinite(x)\n        self._last_x = x\n        fs = np.empty_like(x, dtype=float)", rules=["C19.nomodelwrite"])
+M("c19-model-cache", "C19", J, "        x = np.asarray_chkfinite(x)\n        if x.shape[-1] != self.n_dim:", "        x = np.asarray_chkfinite(x)\n        self._last_x = x\n        if x.shape[-1] != self.n_dim:", rules=["C19.nomodelwrite"])
 M("c19-coords-sort", "C19", U, "    coords = contour.coordinates\n\n    x1 =", "    coords = contour.coordinates\n    coords.sort(axis=0)\n\n    x1 =", rules=["C19.noargmut"])
 M("c19-shared-bounds", "C19", PR, '    bounds = [(0, None), (0, None), (None, None)]\n\n    power3 = DependenceFunction(_power3, bounds, latex="$a + b * x^c$")', '    bounds = _SHARED_BOUNDS\n\n    power3 = DependenceFunction(_power3, bounds, latex="$a + b * x^c$")', rules=["C19.getters"])
 M("c19-intersection-inplace", "C19", IX, "    x1 = np.asarray(x1)\n    x2 = np.asarray(x2)", "    x1 = np.asarray(x1)\n    x1[0] = x1[0]\n    x2 = np.asarray(x2)", rules=["C19.noargmut"])
-M("c19-twin-copy", "C19", J, "        x = np.asarray_chkfinite(x)\n        fs = np.empty_like(x, dtype=float)", "        x = np.asarray_chkfinite(x).copy()\n        x[0, 0] = x[0, 0]\n        fs = np.empty_like(x, dtype=float)", expect="pass")
+M("c19-twin-copy", "C19", J, "        x = np.asarray_chkfinite(x)\n        if x.shape[-1] != self.n_dim:", "        x = np.asarray_chkfinite(x).copy()\n        x[0, 0] = x[0, 0]\n        if x.shape[-1] != self.n_dim:", expect="pass")
 M("c20-close", "C20", PL, "    y.append(y[0])", "    y.append(x[0])", rules=["C20.contour"])
 M("c20-iso-swap", "C20", PL, "    if swap_axis:\n        tmp = X\n        X = Y\n        Y = tmp", "    if swap_axis:\n        tmp = X\n        Y = tmp", rules=["C20.others"])
 M("c20-fmt", "C20", C, 'fmt="%1.6f",', 'fmt="%1.5f",', rules=["C20.save"])
@@ -374,3 +374,12 @@ M("c06-int-buffer", "C06", J, "        fs = np.empty_like(x, dtype=float)", "   
 M("c06-twin-buffer-empty", "C06", J, "        fs = np.empty_like(x, dtype=float)", "        fs = np.empty(x.shape)", expect="pass")
 M("c16-int-buffer", "C16", J, "        p = np.empty_like(x, dtype=float)", "        p = np.empty_like(x)", rules=["C16.mc"], what="original defect D30 (conditional_cdf)")
 M("c16-cache-kept", "C16", J, "        # the sample kept for empirical_cdf belongs to the model as it was\n        self._sample = None\n", "", rules=["C16.cache"], what="stale sample after re-fit")
+
+# ------------------------------------------------------------------ round 4, last repairs reverted: D32-D36
+M("c04-or-object-array", "C04", C, "        coords_x = np.array(coords_x, dtype=float)\n        coords_y = np.array(coords_y, dtype=float)\n", "        coords_x = np.array(coords_x, dtype=object)\n        coords_y = np.array(coords_y, dtype=object)\n", rules=["C04.close"], what="original defect D32")
+M("c20-design-not-converted", "C20", PL, "        design_conditions = np.asarray(design_conditions)\n", "", rules=["C20.contour"], what="original defect D33")
+M("c06-pdf-columns", "C06", J, "        if x.shape[-1] != self.n_dim:\n            raise ValueError(\n                \"The dimension of x does not match the dimension of the model. \"", "        if False:\n            raise ValueError(\n                \"The dimension of x does not match the dimension of the model. \"", rules=["C06.chain"], what="original defect D34")
+M("c13-log-cancellation", "C13", D, "p_star = np.log10(-np.log1p(-(p ** (1 / delta))))", "p_star = np.log10(-np.log(1 - p ** (1 / delta)))", rules=["C13.formula"], what="original defect D35")
+M("c13-twin-log1p-temp", "C13", D, "        p_star = np.log10(-np.log1p(-(p ** (1 / delta))))", "        tail = p ** (1 / delta)\n        p_star = np.log10(-np.log1p(-tail))", expect="pass")
+M("c06-raw-negative-dim", "C06", J, "        dim = range(self.n_dim)[dim]  # a negative index counts from the last variable\n        if self.conditional_on[dim] is None:\n            # the distribution is not conditional -> it is the marginal\n            return self.distributions[dim].pdf(x)", "        if self.conditional_on[dim] is None:\n            # the distribution is not conditional -> it is the marginal\n            return self.distributions[dim].pdf(x)", rules=["C06.argorder"], what="original defect D36")
+M("c04-twin-or-components", "C04", C, "                coords_x.append(current_vector[0, 0])\n                coords_y.append(current_vector[1, 0])\n", "                coords_x.append(float(current_vector[0, 0]))\n                coords_y.append(float(current_vector[1, 0]))\n", expect="pass")
